@@ -8,7 +8,7 @@ from . import sysutil as U
 
 PROP = "C03"
 PROPS_FILE = "theories/Props/C03.v"
-THEOREMS = ["c03_worklist_is_gfp", "c03_propagate_judgements", "c03_closed", "c03_exact_cover", "c03_sound", "c03_worklist_total"]
+THEOREMS = ["c03_worklist_is_gfp", "c03_propagate_judgements", "c03_closed", "c03_exact_cover", "c03_sound", "c03_worklist_total", "c03_analytic_updates_read_analytic_only"]
 GEN_FILES = []
 TRUSTED = ["Coq 8.16.1 kernel + vm_compute",
            "theorems closed under the global context",
